@@ -9,12 +9,13 @@ def run(tier, rng, C):
     for _ in range(nrand):
         stacks.append(V.stack(rng, rng.randint(1, 6), rng.randint(0, 4), markers=rng.choice([0, 0.1, 0.25]),
                               nonstr_keys=0.05))
+    stacks += MC.nested_sequences(rng, 1500 if tier == 'quick' else 40000, markers=('', '', '', '~', '='))
     cases = MC.build_cases(C, stacks)
     for c in cases:
         c['nontrivial'] = V.has_shared_key(c['layers'])
     rule = ('exhaustive: all stacks of <= %d layers over 8 value shapes (null,bool,num,str,list,map,...) at one key, top level '
             'and nested, with every marker combination; plus %d random stacks (<= 6 layers, depth <= 4, null/override/constant '
-            'sprinkled, non-string keys); non-trivial = some key defined by >= 2 layers; oracle = extracted Spec/DeepMerge.v on '
+            'sprinkled, non-string keys); non-trivial = some key defined by >= 2 layers; plus sequences of 3-5 layers giving one nested key values of random kinds (nulls, empty containers); oracle = extracted Spec/DeepMerge.v on '
             'clean-key stacks, model/impl comparison on all' % (2 if tier == 'quick' else 3, nrand))
     return C.standard_run(cases, rule, key_fn=lambda c, m, i, r: 'model-impl-differ', extra_oracle=MC.spec_oracle(C),
                           exhaustive=True)
